@@ -10,11 +10,11 @@ import (
 func init() {
 	register(&PropDef{
 		ID: "C10", Level: "exploration", Quick: 12000, Thorough: 400000, QuickCap: 100,
-		Rule: "each run = one store and one wall-clock configuration (baseline: strictly increasing, advancing by nanoseconds, sub-microsecond steps or up to milliseconds per read, drawn per run; fault configurations, counted separately: stalled/coarse clock, backward step), 3-40 back-to-back requests on 2-3 names: writes by every protocol, compose, copy-to, patches with one/many/zero fields and with bodies that also name read-only fields (md5Hash, generation, metageneration, size, name, bucket, timeCreated), reads, listings, failing requests (bad MD5, failing preconditions), delete and re-create, file-store restarts; laws checked over the whole history: fresh and greater generation per content write and metageneration 1, patch => metageneration+1 with only the supplied fields merged and generation/content/size/MD5 unchanged, nothing else changes either number, and headers / upload responses / metadata GETs / listings agree; distinct = hash of (store, clock mode, shapes); non-trivial = at least 2 content writes to one name",
-		Real: []string{"gcsemu memstore.Add/UpdateMeta/Copy, filestore.Add/UpdateMeta/ReadMeta (mtime as generation), upload/patch/compose/copy handlers, listing"},
-		Stub: []string{"wall clock (simulator-owned: increasing, stalled or stepping back)", "HTTP connections (recorder)"},
+		Rule:   "each run = one store and one wall-clock configuration (baseline: strictly increasing, advancing by nanoseconds, sub-microsecond steps or up to milliseconds per read, drawn per run; fault configurations, counted separately: stalled/coarse clock, backward step), 3-40 back-to-back requests on 2-3 names: writes by every protocol, compose, copy-to, patches with one/many/zero fields and with bodies that also name read-only fields (md5Hash, generation, metageneration, size, name, bucket, timeCreated), reads, listings, failing requests (bad MD5, failing preconditions), delete and re-create, file-store restarts; laws checked over the whole history: fresh and greater generation per content write and metageneration 1, patch => metageneration+1 with only the supplied fields merged and generation/content/size/MD5 unchanged, nothing else changes either number, and headers / upload responses / metadata GETs / listings agree; distinct = hash of (store, clock mode, shapes); non-trivial = at least 2 content writes to one name",
+		Real:   []string{"gcsemu memstore.Add/UpdateMeta/Copy, filestore.Add/UpdateMeta/ReadMeta (mtime as generation), upload/patch/compose/copy handlers, listing"},
+		Stub:   []string{"wall clock (simulator-owned: increasing, stalled or stepping back)", "HTTP connections (recorder)"},
 		Assume: []string{"generations are opaque ordered tokens: only freshness, order and agreement between reporting places are checked", "no JSON null is sent in patches"},
-		Run: runC10,
+		Run:    runC10,
 	})
 	expectedProbes["C10"] = []string{"c10.rewrite_same_name", "c10.patch_readonly_fields", "c10.patch_zero_fields", "c10.delete_recreate", "c10.clock_stalled", "c10.clock_back", "c10.listing_agrees"}
 }
